@@ -148,8 +148,8 @@ func predicateFolds(w *World, obj *types.Named, pred *ssa.Function, m modeDef, w
 	ev := &evaluator{s: spec, fn: pred, feasible: map[Edge]bool{}, reach: g.Reachable(), memo: map[ssa.Value]aval{}}
 	for _, b := range pred.Blocks {
 		for i := range b.Succs {
-			if !g.Dead[Edge{b, i}] {
-				ev.feasible[Edge{b, i}] = true
+			if !g.Dead[Edge{From: b, Succ: i}] {
+				ev.feasible[Edge{From: b, Succ: i}] = true
 			}
 		}
 	}
